@@ -257,3 +257,71 @@ def _polarized_mode(ct, tier, seed):
 
 contract('C16.runtime.polarized_mode', ['optiland/rays/polarized_rays.py:PolarizedRays.update_intensity', 'optiland/optic.py:Optic.trace',
                                         SS + ':Surface._trace_real'], ['C16'], custom=_polarized_mode)(lambda c: None)
+
+
+def _analysis_intensities(ct, tier, seed):
+    """bounded: the intensities an analysis reports are those of the rays it traced, point for point -- checked on a lens whose
+    x fan and y fan lose intensity differently (off-axis field, obscured and clipping apertures, absorbing glass, coatings)"""
+    import random
+    import time
+    import warnings
+    import numpy as np
+    from optiland import analysis
+    from optiland.optic import Optic
+    from optiland.materials import IdealMaterial
+    from optiland.coatings import SimpleCoating
+    from optiland.physical_apertures import RadialAperture
+    warnings.simplefilter('ignore')
+    np.seterr(all='ignore')
+    t0 = time.time()
+    rng = random.Random(seed * 59 + 14)
+    clauses, fails, cases = {}, [], 0
+
+    def note(cid, ok, detail, inputs):
+        c_ = clauses.setdefault(cid, {'paths': 0, 'proved': 0, 'backends': {}, 'failed': [], 'seconds': 0.0, 'bounded': True})
+        c_['paths'] += 1
+        if ok:
+            c_['proved'] += 1
+            c_['backends']['runtime'] = c_['backends'].get('runtime', 0) + 1
+        else:
+            fails.append({'clause': cid, 'draws': inputs, 'note': detail})
+    for i in range(2 if tier == 'quick' else 8):
+        par = {'rmin': rng.uniform(0.4, 0.8), 'rmax': rng.uniform(5.0, 5.8), 'k': rng.uniform(1e-6, 4e-6), 'T': rng.uniform(0.7, 0.95)}
+        L = Optic()
+        L.add_surface(index=0, thickness=np.inf)
+        L.add_surface(index=1, radius=np.inf, thickness=3.0, is_stop=True)
+        L.add_surface(index=2, radius=45.0, thickness=6.0, material=IdealMaterial(1.6, par['k']), aperture=RadialAperture(r_max=9.0, r_min=par['rmin']),
+                      coating=SimpleCoating(par['T'], 0.0))
+        L.add_surface(index=3, radius=-60.0, thickness=60.0, aperture=RadialAperture(r_max=par['rmax']))
+        L.add_surface(index=4)
+        L.set_aperture('EPD', 10.0)
+        L.set_field_type('angle')
+        L.add_field(y=0.0)
+        L.add_field(y=12.0)
+        L.add_wavelength(0.55, is_primary=True)
+        npts = 7
+        rf = analysis.RayFan(L, num_points=npts)
+        P = np.linspace(-1, 1, npts)
+        for f in L.fields.get_field_coords():
+            d = rf.data[str(f)][str(0.55)]
+            ix = [float(L.trace_generic(float(f[0]), float(f[1]), float(p_), 0.0, 0.55).i[0]) for p_ in P]
+            iy = [float(L.trace_generic(float(f[0]), float(f[1]), 0.0, float(p_), 0.55).i[0]) for p_ in P]
+            cases += 1
+            note('C16.runtime.ray_fan_intensities_are_those_of_its_rays', bool(np.allclose(d['intensity_x'], ix, rtol=1e-12, atol=0)) and bool(np.allclose(d['intensity_y'], iy, rtol=1e-12, atol=0)),
+                 'field %s: x fan %s vs %s' % (f, np.round(d['intensity_x'], 3), np.round(ix, 3)), {'lens': par, 'field': list(f)})
+        sd = analysis.SpotDiagram(L, num_rings=3, distribution='hexapolar')
+        from optiland.distribution import create_distribution
+        dist = create_distribution('hexapolar')
+        dist.generate_points(3)
+        for k_, f in enumerate(L.fields.get_field_coords()):
+            ii = [float(L.trace_generic(float(f[0]), float(f[1]), float(px), float(py), 0.55).i[0]) for px, py in zip(dist.x, dist.y)]
+            cases += 1
+            note('C16.runtime.spot_diagram_intensities_are_those_of_its_rays', bool(np.allclose(sd.data[k_][0][2], ii, rtol=1e-12, atol=0)), 'field %s' % (f,), {'lens': par, 'field': list(f)})
+    return {'contract': ct.name, 'functions': ct.functions, 'props': ct.props,
+            'symbolic': {'clauses': clauses, 'paths': 0, 'errors': [], 'solver_s': 0.0, 'samples': [], 'wd_assumed': [], 'assumed': []},
+            'numeric': {'accepted': cases, 'rejected': 0, 'failures': fails[:10], 'concolic_agree': 0, 'encoder_mismatches': [],
+                        'samples': [{'lens': 'front stop, obscured and clipped singlet, absorbing glass, coated'}]}, 'wall_s': time.time() - t0}
+
+
+contract('C16.runtime.analysis_intensities', ['optiland/analysis/ray_fan.py:RayFan._generate_data', 'optiland/analysis/spot_diagram.py:SpotDiagram._generate_field_data'],
+         ['C16', 'C12'], custom=_analysis_intensities)(lambda c: None)
